@@ -32,6 +32,8 @@ def _draw_center(r):
         return round(r.uniform(0, 360), 4), pick(r, [89.95, -89.95, 89.9, -89.9, 89.8999, 89.0, -89.5, 89.99999])
     if k == "seam":
         return pick(r, [0.0, 1e-7, 359.99999, 0.5, 359.5]), round(r.uniform(-80, 80), 4)
+    if chance(r, 0.4):
+        return pick(r, [0.0, 180.0, 90.0, 270.0, 360.0, 45.0]), 0.0
     return round(r.uniform(0, 360), 4), 0.0
 
 
@@ -42,10 +44,10 @@ def _draw_radius(r, avoid_small):
     if k == "small":
         return float("%.3g" % (10 ** r.uniform(math.log10(RHO_SMALL) + 0.5, -0.5)))
     if k == "mid":
-        return round(r.uniform(0.3, 30), 3)
+        return round(r.uniform(0.3, 30), 3) if not chance(r, 0.2) else pick(r, [1.0, 1, 2.0, 5, 10.0, 0.5, 30])
     if k == "big":
-        return round(r.uniform(30, 179), 2)
-    return pick(r, [180.0, 179.999, 90.0, 179.0])
+        return round(r.uniform(30, 179), 2) if not chance(r, 0.2) else pick(r, [45.0, 60, 90, 120.0, 150])
+    return pick(r, [180.0, 179.999, 90.0, 179.0, 180])
 
 
 def plan(S, prop, mode, tier, avoid):
